@@ -101,7 +101,7 @@ def step (s : Sess) (c : Cmd) : Sess × String × String :=
     if cb then fin r.1 s!"st=- cb={fmtList r.2.1}" s!"st=- cb={fmtList r.2.2}" else fin r.1 "st=-" "st=-"
   | "zit_new" =>
     let p := c.nat "p" 1
-    if p ≥ NSLOT ∨ p = k ∨ (s.stk k).isNone ∨ (s.stk p).isNone then
+    if p ≥ NSLOT ∨ (s.stk k).isNone ∨ (s.stk p).isNone then
       fin { s with zit := none, szit := none } "st=- noobj" "st=- noobj" else
     fin { s with zit := some (k, p, {}), szit := some (k, p, 0, false) } "st=-" "st=-"
   | "zit_next" | "zit_replace" =>
@@ -109,6 +109,23 @@ def step (s : Sess) (c : Cmd) : Sess × String × String :=
     | some (k1, k2, it), some (_, _, pos, rm) =>
       match s.stk k1, s.stk k2, s.lst k1, s.lst k2 with
       | some a1, some a2, some xs1, some xs2 =>
+        -- the same stack on both sides: one state threaded through both halves of the call
+        if k1 = k2 then
+          if c.op == "zit_next" then
+            let (st, o, it', m) := Stack.zipNext a1 a1 it s.mem
+            let (sst, so) : Stat × Option (Nat × Nat) :=
+              if pos ≥ xs1.length then (.iterEnd, none) else (.ok, some (xs1.getD pos 0, xs1.getD pos 0))
+            fin { s with zit := some (k1, k2, it'), szit := some (k1, k2, if sst == Stat.ok then pos + 1 else pos, if sst == Stat.ok then false else rm), mem := m }
+              (fmtOut2 sst so) (fmtOut2 st o)
+          else
+            let (st, o, a', m) := Stack.zipReplace1 a1 it x y s.mem
+            let (sst, so, xs') : Stat × Option (Nat × Nat) × List Nat :=
+              if Spec.Seq.wdec pos ≥ xs1.length then (.errOutOfRange, none, xs1) else
+              let r1 := Spec.Seq.replaceAt xs1 x (Spec.Seq.wdec pos)
+              let r2 := Spec.Seq.replaceAt r1.2.2 y (Spec.Seq.wdec pos)
+              (.ok, some (r1.2.1.getD 0, r2.2.1.getD 0), r2.2.2)
+            fin { (s.setStk k1 (some a')).setLst k1 (some xs') with mem := m } (fmtOut2 sst so) (fmtOut2 st o)
+        else
         let zc : Spec.Seq.ZipCursor := { done1 := xs1.take pos, todo1 := xs1.drop pos, done2 := xs2.take pos, todo2 := xs2.drop pos, removed := rm }
         let putS (s : Sess) (zc : Spec.Seq.ZipCursor) : Sess :=
           { (s.setLst k1 (some zc.content1)).setLst k2 (some zc.content2) with szit := some (k1, k2, zc.done1.length, zc.removed) }
